@@ -62,34 +62,31 @@ theorem swap_perm (h : List Elem) (i j : Nat) : (swap h i j).Perm h := by
 theorem length_swap (h : List Elem) (i j : Nat) : (swap h i j).length = h.length :=
   (swap_perm h i j).length_eq
 
-theorem up_perm (h : List Elem) (j : Nat) : (up h j).Perm h := by
-  induction j using Nat.strongRecOn generalizing h with
-  | _ j ih =>
-    unfold up
-    by_cases h0 : j = 0
-    · simp [h0]
-    · simp only [h0, dite_false]
-      split
-      · exact (ih ((j - 1) / 2) (by omega) _).trans (swap_perm h _ _)
+theorem up_perm (fuel : Nat) (h : List Elem) (j : Nat) : (up fuel h j).Perm h := by
+  induction fuel generalizing h j with
+  | zero => exact List.Perm.refl _
+  | succ fuel ih =>
+    simp only [up]
+    split
+    · exact List.Perm.refl _
+    · split
+      · exact (ih _ _).trans (swap_perm h _ _)
       · exact List.Perm.refl _
 
-theorem down_perm (h : List Elem) (i n : Nat) : (down h i n).1.Perm h := by
-  generalize hk : n - i = k
-  induction k using Nat.strongRecOn generalizing h i with
-  | _ k ih =>
-    unfold down
-    by_cases hn : 2 * i + 1 < n
-    · simp only [hn, dite_true]
-      split
-      · have hg := child_gt h i n
-        have hl := child_lt h i n hn
-        exact (ih (n - child h i n) (by omega) _ _ rfl).trans (swap_perm h _ _)
+theorem down_perm (fuel : Nat) (h : List Elem) (i n : Nat) : (down fuel h i n).1.Perm h := by
+  induction fuel generalizing h i with
+  | zero => exact List.Perm.refl _
+  | succ fuel ih =>
+    simp only [down]
+    split
+    · split
+      · exact (ih _ _).trans (swap_perm h _ _)
       · exact List.Perm.refl _
-    · simp [hn]
+    · exact List.Perm.refl _
 
 theorem push_perm (h : List Elem) (e : Elem) : (push h e).Perm (e :: h) := by
   unfold push
-  exact (up_perm _ _).trans (List.perm_append_comm.trans (by simp))
+  exact (up_perm _ _ _).trans (List.perm_append_comm.trans (by simp))
 
 theorem pop_none {h : List Elem} : pop h = none ↔ h = [] := by
   cases h with
@@ -120,7 +117,7 @@ theorem pop_perm {h h' : List Elem} {e : Elem} (hp : pop h = some (e, h')) : h.P
       have hperm : (last :: rest.dropLast).Perm rest := by
         conv => rhs; rw [hr]
         exact (List.perm_append_comm (l₁ := [last]) (l₂ := rest.dropLast))
-      exact List.Perm.cons _ ((down_perm _ _ _).trans hperm).symm
+      exact List.Perm.cons _ ((down_perm _ _ _ _).trans hperm).symm
 
 /-- Cutting the last slot off and putting its element at position `i` takes out the element at `i`. -/
 theorem set_dropLast_perm {h : List Elem} {i : Nat} {e last : Elem} (hi : h[i]? = some e)
@@ -194,8 +191,8 @@ theorem removeAt_perm {h h' : List Elem} {i : Nat} {e : Elem} (hr : removeAt h i
         have hbase := set_dropLast_perm hi hl hlast
         refine hbase.trans (List.Perm.cons _ ?_)
         split
-        · exact (down_perm _ _ _).symm
-        · exact ((up_perm _ _).trans (down_perm _ _ _)).symm
+        · exact (down_perm _ _ _ _).symm
+        · exact ((up_perm _ _ _).trans (down_perm _ _ _ _)).symm
 
 theorem removeAt_isSome {h : List Elem} {i : Nat} (hi : i < h.length) : (removeAt h i).isSome = true := by
   unfold removeAt
